@@ -32,7 +32,7 @@ CONSTANTS BaseMags,     \* magnitudes (ticks) of the left operand
           Rels,         \* subset of DOMAIN RelTol
           Abss,         \* subset of DOMAIN AbsTol
           Spellings,    \* unit spellings of an operand: subset of {"base", "kilo", "milli"}
-          Families,     \* subset of {"boundary", "complex", "dimension", "vector"}
+          Families,     \* subset of {"boundary", "mass", "complex", "dimension", "vector"}
           MaxVec        \* vectors of 0..MaxVec components
 
 VARIABLES case, i, verdict
@@ -50,7 +50,8 @@ Floor(n, d) == n \div d                      \* n >= 0, d > 0
 
 \* --- one real or imaginary part --------------------------------------------------------------
 WithinRel(dl, m, rel)   == dl <= Floor(rel[1] * m, rel[2])                 \* dl * rd <= rn * m
-OnRelBoundary(dl, m, rel) == (rel[1] * m) % rel[2] = 0 /\ dl = Floor(rel[1] * m, rel[2])
+\* (equal parts are never "on the boundary": a difference of zero is within every tolerance, also in floating point)
+OnRelBoundary(dl, m, rel) == dl > 0 /\ (rel[1] * m) % rel[2] = 0 /\ dl = Floor(rel[1] * m, rel[2])
 
 \* must fail: differs by more than the larger of abs and rel * (larger magnitude, generous reading mBig)
 MustFailPart(l, r, mBig, rel, an) == ~WithinRel(AbsI(l - r), mBig, rel) /\ (an < 0 \/ AbsI(l - r) > an)
@@ -59,7 +60,7 @@ MustPassPart(l, r, rel, an) ==
   IF an >= 0 THEN AbsI(l - r) <= an ELSE WithinRel(AbsI(l - r), MaxI(AbsI(l), AbsI(r)), rel)
 BoundaryPart(l, r, mBig, rel, an) ==
   \/ OnRelBoundary(AbsI(l - r), mBig, rel) \/ OnRelBoundary(AbsI(l - r), MaxI(AbsI(l), AbsI(r)), rel)
-  \/ (an >= 0 /\ AbsI(l - r) = an)
+  \/ (an >= 0 /\ l # r /\ AbsI(l - r) = an)
 
 \* --- one component ------------------------------------------------------------------------------
 IsZero(a) == a.re = 0 /\ a.im = 0
@@ -78,8 +79,13 @@ OnBoundary(a, b, rel, an) ==
   BoundaryPart(a.re, b.re, MBig(a, b), rel, an) \/ BoundaryPart(a.im, b.im, MBig(a, b), rel, an)
 
 Both == {"pass", "notpass"}
+\* a bare number compared under a supplied dimension: the statement does not say in which unit the number is
+\* meant; the SI unit is assumed here, which is unambiguous except for the kilogram (SymPy's unit system counts
+\* mass in grams): with a mass exponent the value comparison is left open
+UnitOfBareNumberOpen(b, dimarg) == b.k = "num" /\ dimarg.given /\ dimarg.d["M"] # RZero
 CompAllowed(a, b, rel, an, dimarg) ==
   IF ~DimsOK(a, b, dimarg) /\ ~IsZero(a) /\ ~IsZero(b) THEN {"notpass"}
+  ELSE IF UnitOfBareNumberOpen(b, dimarg) THEN Both
   ELSE IF OnBoundary(a, b, rel, an) THEN Both
   ELSE IF ValuesMustFail(a, b, rel, an) THEN {"notpass"}
   ELSE IF ~DimsOK(a, b, dimarg) THEN Both              \* a zero operand of another dimension
@@ -117,6 +123,15 @@ InitBoundary ==
       IN  case = IF swap THEN Cmp("boundary", [q EXCEPT ![1].u = sp[1]], [p EXCEPT ![1].u = sp[2]], rel, an, NoDim)
                  ELSE Cmp("boundary", p, q, rel, an, NoDim)
 
+\* the same straddling values for dimensions with a mass exponent (the SI unit of mass is the kilogram)
+Mas1 == BaseDim("M")
+InitMass ==
+  \E b \in {m \in BaseMags : m > 0 /\ m <= 1000000}, rel \in Rels, an \in Abss, swap \in BOOLEAN,
+     d \in {Mas1, DInv(Mas1), DMul(Mas1, DPow(Len1, R(2)))} :
+    \E x \in UNION {Signed(y) : y \in Deltas(b, rel, an)} :
+      LET p == <<Op("qty", b, 0, d, "base")>>   q == <<Op("qty", b + x, 0, d, "base")>>
+      IN  case = IF swap THEN Cmp("mass", q, p, rel, an, NoDim) ELSE Cmp("mass", p, q, rel, an, NoDim)
+
 \* real and imaginary parts off by independent amounts
 Off(b, rel) == {0, T(b, rel), T(b, rel) + 2, 3 * T(b, rel) + 3}
 InitComplex ==
@@ -126,9 +141,9 @@ InitComplex ==
 
 \* dimensions: equivalent, equivalent up to angle, inequivalent; bare numbers with and without a supplied
 \* dimension; zero operands
-DimKinds == {<<"qty", Len1>>, <<"qty", Tim1>>, <<"qty", DimOf["lenang"]>>, <<"qty", D1>>, <<"qty", DimOf["ang"]>>, <<"num", D1>>}
+DimKinds == {<<"qty", Len1>>, <<"qty", Tim1>>, <<"qty", BaseDim("M")>>, <<"qty", DimOf["lenang"]>>, <<"qty", D1>>, <<"qty", DimOf["ang"]>>, <<"num", D1>>}
 InitDimension ==
-  \E a \in DimKinds, b \in DimKinds, da \in {NoDim, Given(Len1), Given(Tim1)}, l \in {0, 1000000}, r \in {0, 1000000, 1000500, 1100000} :
+  \E a \in DimKinds, b \in DimKinds, da \in {NoDim, Given(Len1), Given(Tim1), Given(BaseDim("M"))}, l \in {0, 1000000}, r \in {0, 1000000, 1000500, 1100000} :
     /\ (da.given => b[1] = "num")                            \* a dimension is supplied for a bare-number rhs only
     /\ case = Cmp("dimension", <<Op(a[1], l, 0, a[2], "base")>>, <<Op(b[1], r, 0, b[2], "base")>>, "default", "none", da)
 
@@ -142,6 +157,7 @@ InitVector ==
 -----------------------------------------------------------------------------
 (* The comparison machine.                                                   *)
 Init == /\ \/ ("boundary" \in Families /\ InitBoundary)
+           \/ ("mass" \in Families /\ InitMass)
            \/ ("complex" \in Families /\ InitComplex)
            \/ ("dimension" \in Families /\ InitDimension)
            \/ ("vector" \in Families /\ InitVector)
@@ -190,6 +206,12 @@ Monotone == AtStart => \A j \in Comps :
               LET a == case.l[j]  b == case.r[j] IN
                 (a.im = 0 /\ b.im = 0 /\ ValuesMustFail(a, b, case.rel, case.an) /\ b.re >= a.re /\ a.re >= 0) =>
                    ValuesMustFail(a, [b EXCEPT !.re = @ + 1], case.rel, case.an)
+\* for real operands of equivalent dimension and no absolute tolerance nothing is left open off the boundary
+SharpForReals == AtStart /\ case.an < 0 => \A j \in Comps :
+                   LET a == case.l[j]  b == case.r[j] IN
+                     (a.im = 0 /\ b.im = 0 /\ DimsOK(a, b, case.dimarg) /\ ~OnBoundary(a, b, case.rel, case.an)
+                        /\ ~UnitOfBareNumberOpen(b, case.dimarg))
+                        => Cardinality(CA(a, b)) = 1
 \* the machine and the closed form agree; a pass needs equal lengths and every component passing
 FinalIsAllowed == Terminal => verdict \in Allowed(case)
 PassNeedsAll == verdict = "pass" => Len(case.l) = Len(case.r) /\ \A j \in Comps : "pass" \in CA(case.l[j], case.r[j])
